@@ -475,6 +475,18 @@ func (s *Sim) obsVerify(hashes []u.Hash, targets []uint64, proofHashes []u.Hash)
 			res = "err"
 		}
 		emit("obs %s verify %s %s %s %s", in.label, hxs(hashes), us(targets), hxs(proofHashes), res)
+		if res == "ok" && len(hashes) > 0 {
+			// an accepted input is also verified with remember=true (the ingest path); it
+			// must return the same verdict without panicking (C04)
+			var rerr error
+			rr := guard(watchdog, func() {
+				rerr = in.acc.Verify(copyHashes(hashes), u.Proof{Targets: copyU64(targets), Proof: copyHashes(proofHashes)}, true)
+			})
+			if rr == "ok" && rerr != nil {
+				rr = "err"
+			}
+			emit("obs %s rverify %s %s %s %s", in.label, hxs(hashes), us(targets), hxs(proofHashes), rr)
+		}
 		if in.mp != nil {
 			// partial-proof verification with the same untrusted input (C03/C04)
 			var perr error
